@@ -162,7 +162,7 @@ pub fn plan_admin(w: &World, _k: &Knobs, actor: &mut Actor, l: &Ledger) -> Vec<(
             }
         }
         10 => push(
-            ix::mk(wa::InitializeConfigExtension { config, config_extension: ix::pda_config_extension(&config), funder: me, fee_authority: me, system_program: ix::sys() }, wi::InitializeConfigExtension {}),
+            ix::mk(wa::InitializeConfigExtension { config, config_extension: ix::pda_config_extension(&config), funder: if rng.chance(1, 2) { w.payer } else { me }, fee_authority: me, system_program: ix::sys() }, wi::InitializeConfigExtension {}),
             "initialize_config_extension",
         ),
         11 => push(
